@@ -1,7 +1,9 @@
 package main
 
 import (
+	"encoding/json"
 	"fmt"
+	"reflect"
 	"strings"
 
 	"verifharness/docs"
@@ -220,5 +222,108 @@ func c10(r *mon.Run) {
 				t.Nontrivial(fmt.Sprint("many:", name, k, kind))
 			}
 		}}
-	r.Exec(exh, by, many, rnd, sizedWorkload(r, "sized-arrays-ill-typed", true))
+	// Go values that are not the JSON representation (what reaches a function from hand-built maps, struct
+	// fields, Decoder.UseNumber): in a position with a declared type they are ill-typed like any other
+	// non-member of that type — an error, and the error path itself must cope with them
+	type T struct{ A int }
+	f, str, bl := 2.5, "p", true
+	exotics := []struct {
+		name string
+		v    interface{}
+	}{
+		{"int", int(3)}, {"int64", int64(-4)}, {"uint8", uint8(7)}, {"float32", float32(1.5)}, {"json.Number", json.Number("12")}, {"named float", docs.Num(1)}, {"named string", docs.Str("a")},
+		{"*float64", &f}, {"*string", &str}, {"*bool", &bl}, {"struct", T{1}}, {"*struct", &T{2}}, {"map[string]int", map[string]int{"a": 1}}, {"map[string]string", map[string]string{"a": "b"}},
+		{"[]interface{} holding an int", []interface{}{float64(1), int(2)}}, {"[]interface{} holding a *string", []interface{}{"a", &str}}, {"[]interface{} holding a struct", []interface{}{T{3}}},
+		{"complex128", complex(1, 2)}, {"[]byte", []byte("ab")}, {"func", func() {}}, {"chan", make(chan int)}, {"nil *struct", (*T)(nil)}, {"[2]int array", [2]int{1, 2}},
+	}
+	type njc struct {
+		fn  string
+		pos int
+		n   int
+	}
+	var njs []njc
+	for _, name := range ref.FunctionNames() {
+		sg := ref.Signatures[name]
+		np := len(sg.Params)
+		for p := 0; p < np; p++ {
+			njs = append(njs, njc{name, p, np})
+		}
+		if sg.Variadic {
+			njs = append(njs, njc{name, np, np + 1}, njc{name, np + 1, np + 2})
+		}
+	}
+	valid := func(types []string) *gen.Expr {
+		switch types[0] {
+		case "number":
+			return gen.Field("n")
+		case "string":
+			return gen.Field("s")
+		case "array", "array[number]":
+			return gen.Field("a")
+		case "array[string]":
+			return gen.Field("as")
+		case "object":
+			return gen.Field("o")
+		case "expref":
+			return gen.ExpRef(gen.Current())
+		}
+		return gen.Field("n")
+	}
+	nj := mon.Workload{Name: "non-JSON-arguments", N: len(njs) * len(exotics) * 2,
+		Describe: func(i int) string {
+			c := njs[i/2/len(exotics)]
+			return fmt.Sprint(c.fn, " argument ", c.pos, " of ", c.n, " is a ", exotics[i/2%len(exotics)].name)
+		},
+		Do: func(i int, t *mon.Tally) {
+			c := njs[i/2/len(exotics)]
+			ex := exotics[i/2%len(exotics)]
+			sg := ref.Signatures[c.fn]
+			args := make([]*gen.Expr, c.n)
+			declared := func(p int) []string {
+				if p >= len(sg.Params) {
+					return sg.Params[len(sg.Params)-1]
+				}
+				return sg.Params[p]
+			}
+			for p := range args {
+				args[p] = valid(declared(p))
+			}
+			args[c.pos] = gen.Field("x")
+			var tree *gen.Expr = gen.Func(c.fn, args...)
+			if i%2 == 1 { // per element of a projection
+				tree = gen.Chain(gen.Field("rows"), gen.StListStar(), gen.StFunc(c.fn, args...))
+			}
+			row := map[string]interface{}{"x": ex.v, "n": float64(1), "s": "a", "a": []interface{}{float64(1), float64(2)}, "as": []interface{}{"a"}, "o": map[string]interface{}{"k": float64(1)}}
+			var doc interface{} = row
+			if i%2 == 1 {
+				doc = map[string]interface{}{"rows": []interface{}{row}}
+			}
+			expr := gen.SpellTight(tree)
+			mustErr := true
+			isList := reflect.ValueOf(ex.v).Kind() == reflect.Slice // any Go slice is an array (typed slices are converted at the call)
+			for _, ty := range declared(c.pos) {
+				if ty == "any" || (isList && ty == "array") { // a []interface{} is an array whatever it holds
+					mustErr = false
+				}
+			}
+			t.Eval()
+			for k, o := range []mon.Observed{apiSearch(expr, doc), apiCompiledSearch(expr, doc)} {
+				if o.Panicked || (mustErr && o.Err == nil) {
+					exp := "an error (a " + ex.name + " is none of the declared types " + strings.Join(declared(c.pos), "|") + ")"
+					if !mustErr {
+						exp = "a value or an error, no panic"
+					}
+					r.Violate(&mon.Violation{Workload: "non-JSON-arguments", Index: i, API: []string{"Search", "Compile+Search"}[k], Expr: expr,
+						DocDesc: "x is a Go " + ex.name + ": " + clipStr(mon.Snapshot(ex.v), 200), Expected: exp, Observed: o.String(), Detail: o.Stack, Class: "non-JSON-arguments: " + o.Class()})
+					return
+				}
+			}
+			if mustErr {
+				t.Count("non-JSON argument in a typed position: error")
+				t.Nontrivial(fmt.Sprint("nj:", i))
+			} else {
+				t.Count("non-JSON argument in an 'any' position: no panic")
+			}
+		}}
+	r.Exec(exh, by, many, rnd, sizedWorkload(r, "sized-arrays-ill-typed", true), nj)
 }
